@@ -74,10 +74,26 @@ impl EventGen for SvgElement {
             if let ("clipPath", Some(clip_bbox)) =
                 (clip_el.name.as_str(), context.get_element_bbox(clip_el)?)
             {
-                bbox = el_bbox.intersect(&clip_bbox);
-                let mut el = self.clone();
-                el.content_bbox = bbox;
-                context.update_element(&el);
+                if self.has_attr("transform") {
+                    // The clip path is in this element's user space, i.e. inside its
+                    // transform, while `el_bbox` is already transformed. (Later lookups
+                    // of this element clip for themselves; see `get_element_bbox()`.)
+                    // The element as written to the output has the evaluated transform.
+                    let out_el = ol.iter().find_map(|ev| match ev {
+                        OutputEvent::Start(e) | OutputEvent::Empty(e) => Some(e),
+                        _ => None,
+                    });
+                    if let Some(out_el) = out_el {
+                        bbox = out_el
+                            .transformed(Some(clip_bbox))?
+                            .and_then(|clip_bbox| el_bbox.intersect(&clip_bbox));
+                    }
+                } else {
+                    bbox = el_bbox.intersect(&clip_bbox);
+                    let mut el = self.clone();
+                    el.content_bbox = bbox;
+                    context.update_element(&el);
+                }
             }
         }
 
